@@ -26,7 +26,7 @@ const SPEC: Spec = Spec {
         "memory errors that leave no trace in returned values (reads of unmapped memory) would show as a dying worker, not as an oracle message; the ASan/libFuzzer stage of DESIGN C15 is not part of this binary",
     ],
     watchdog_quick_s: 1800,
-    watchdog_thorough_s: 7200,
+    watchdog_thorough_s: 14400,
 };
 
 fn body(ctx: &mut Ctx) {
